@@ -23,6 +23,11 @@ PackClause(inst, c, p) ==
           ELSE IF badlb # {} THEN "below-declared-lower-bound:" \o ObjNames[SetMin(badlb)]
           ELSE IF badub # {} THEN "above-declared-upper-bound:" \o ObjNames[SetMin(badub)]
           ELSE IF badtb # {} THEN "to-bin-count:" \o ObjNames[SetMin(badtb)]
+          \* the record the library derives for the packing (packing_result.from_packing_and_end_result): the
+          \* same seven values and the same declared bounds (optional fields rvals, rlbs, rubs; <<>> = rejected)
+          ELSE IF "rvals" \in DOMAIN p /\ p.rvals = <<>> THEN "result-record-rejects-feasible-packing"
+          ELSE IF "rvals" \in DOMAIN p /\ p.rvals # p.vals THEN "result-record-values-differ"
+          ELSE IF "rvals" \in DOMAIN p /\ (p.rlbs # c.lbs \/ p.rubs # c.ubs) THEN "result-record-bounds-differ"
           ELSE "ok"
 
 \* fewer bins => strictly smaller value, for every objective, over all pairs of the case
